@@ -1448,7 +1448,9 @@ private:
                 val = binary::big_to_native<uint64_t>(buf, sizeof(buf));
                 break;
             }
-            default:
+            default: // reserved additional information values are not well-formed
+                ec = cbor_errc::unknown_type;
+                more_ = false;
                 break;
         }
         return val;
@@ -1533,6 +1535,10 @@ private:
                             val = static_cast<int64_t>(-1)- static_cast<int64_t>(x);
                             break;
                         }
+                    default: // reserved additional information values are not well-formed
+                        ec = cbor_errc::unknown_type;
+                        more_ = false;
+                        return val;
                 }
                 break;
 
